@@ -145,7 +145,7 @@ pub fn probes(tier: &str) -> Vec<Probe> {
         p.push(Probe::HexFmt(c));
         p.push(Probe::Compact(vec![c]));
     }
-    let stride = if tier == "quick" { 61 } else { 13 };
+    let stride = if tier == "quick" { 61 } else { 5 };
     let mut subset: Vec<u64> = ids.iter().copied().step_by(stride).collect();
     subset.extend([0, 1, 2, 3, u64::MAX, 1 << 63]);
     for r in -1..=29 {
